@@ -610,6 +610,67 @@ func (in *Interp) installLibStubs() {
 		}
 		return strConst(sb.String())
 	}
+	// fmt.Sprint of concrete values (%v formatting of strings, integers, booleans, slices, nil)
+	var fmtV func(v Value) (string, bool, bool)
+	fmtV = func(v Value) (string, bool, bool) { // text, isString, ok
+		switch x := v.(type) {
+		case IfaceV:
+			if x.t == nil {
+				return "<nil>", false, true
+			}
+			return fmtV(x.v)
+		case StrV:
+			s, ok := x.concrete()
+			return s, true, ok
+		case *Term:
+			if !x.IsConst() {
+				return "", false, false
+			}
+			if x.w == 1 {
+				if x.True() {
+					return "true", false, true
+				}
+				return "false", false, true
+			}
+			return fmt.Sprint(x.Int()), false, true
+		case SliceV:
+			if x.isNil || x.symLen != nil {
+				if x.isNil {
+					return "[]", false, true
+				}
+				return "", false, false
+			}
+			parts := make([]string, x.n)
+			for i := 0; i < x.n; i++ {
+				t, _, ok := fmtV(x.arr[x.off+i].get())
+				if !ok {
+					return "", false, false
+				}
+				parts[i] = t
+			}
+			return "[" + strings.Join(parts, " ") + "]", false, true
+		case nil:
+			return "<nil>", false, true
+		}
+		return "", false, false
+	}
+	S["fmt.Sprint"] = func(in *Interp, fn *ssa.Function, a []Value) Value {
+		va := a[0].(SliceV)
+		var sb strings.Builder
+		prevString := true
+		for i := 0; i < va.n; i++ {
+			t, isStr, ok := fmtV(va.arr[va.off+i].get())
+			if !ok {
+				in.abort("unsupported", "fmt.Sprint of a symbolic or unsupported value")
+			}
+			if i > 0 && !isStr && !prevString {
+				sb.WriteByte(' ')
+			}
+			sb.WriteString(t)
+			prevString = isStr
+		}
+		return strConst(sb.String())
+	}
 	// uuid <-> string: an abstract inverse pair (formatting forks 256-way per symbolic byte)
 	S["(github.com/google/uuid.UUID).String"] = func(in *Interp, fn *ssa.Function, a []Value) Value {
 		tag := in.fresh(8, "uuidstr")
